@@ -39,7 +39,9 @@ RULE = (
     "case-differing repeats and arbitrary-octet labels), NS/CNAME/PTR/MX/SOA rdata with embedded names, opaque rdata of "
     "~12 further types, messages pushed across offset 0x3FFF, EDNS versions/flags/payloads/option lists, extended rcodes, "
     "TSIG, with and without an origin (incl. the root); direct dns.renderer.Renderer scripts with a tight max_size in which the "
-    "caller catches TooBig and keeps adding rrsets whose owner / NS / MX / SOA names end in or equal the rolled-back owner; plus a mutated-wire stream (count/rdlen/ttl/pointer/class edits, "
+    "caller catches TooBig and keeps adding rrsets whose owner / NS / MX / SOA names end in or equal the rolled-back owner (through add_rrset or "
+    "add_rdataset, add_question with and without its class, the constructor with positional/keyword/default arguments, add_edns, a relative owner "
+    "without origin); hand-encoded UPDATE wires around the zone-section rules and delete forms in every section; plus a mutated-wire stream (count/rdlen/ttl/pointer/class edits, "
     "truncation, trailing junk) and header-field pools; a case is non-trivial if its key (kind + content) is new"
 )
 TRUSTED_BASE = [
@@ -1286,6 +1288,15 @@ def gen_update(rng):
     if rng.chance(1, 3):
         u.use_edns(0, rng.choice([0, 0x8000]), rng.choice([1232, 4096]))
     c = case_of_message(u, kind="msg", max_size=65535)
+    if rng.chance(1, 3) and c["sections"][2]:
+        # delete forms outside the update section: class NONE with rdata / class ANY without, in ADDITIONAL
+        own = c["sections"][2][0]["name"]
+        if rng.chance(2, 3):
+            c["sections"][3].append({"name": own, "rdclass": c["sections"][0][0]["rdclass"], "rdtype": 65280, "covers": 0, "deleting": 254, "ttl": 0,
+                                     "rdatas": [{"k": "o", "b": rng.bytes(4).hex()}]})
+        if rng.chance(1, 2):
+            c["sections"][3].append({"name": own, "rdclass": c["sections"][0][0]["rdclass"], "rdtype": 65281, "covers": 0, "deleting": 255, "ttl": 0,
+                                     "rdatas": []})
     if rng.chance(1, 4):
         c["tsig"] = gen_tsig(rng, ng, c)
     if rng.chance(1, 3):
@@ -1426,6 +1437,47 @@ def model_exact_message(rng):
     c["pad"] = 0
     c["max_size"] = 65535
     return c
+
+
+def gen_update_wire(rng):
+    """hand-encoded (uncompressed) UPDATE messages around the zone-section rules: two zone entries, a zone entry that is
+    not SOA or has a meta class, no zone entry before a record, delete forms in every section"""
+    def name(*labels):
+        return b"".join(bytes([len(l)]) + l for l in labels) + b"\0"
+    def q(n, t=6, cl=1):
+        return n + struct.pack("!HH", t, cl)
+    def rec(n, t, cl, ttl, rd):
+        return n + struct.pack("!HHIH", t, cl, ttl, len(rd)) + rd
+    zone = name(rng.choice([b"example", b"zone", b"EX"]))
+    host = name(b"host") [:-1] + zone
+    zc = rng.choice([1, 1, 3, 4])
+    v = rng.below(9)
+    qs, pre, upd, add = [q(zone, 6, zc)], [], [], []
+    if v == 0:
+        qs.append(q(zone, 6, zc))                       # a second zone entry
+    elif v == 1:
+        qs.append(q(name(b"other"), 6, zc))
+    elif v == 2:
+        qs = [q(zone, rng.choice([2, 1, 255]), zc)]     # not SOA
+    elif v == 3:
+        qs = [q(zone, 6, rng.choice([255, 254]))]       # meta class
+    elif v == 4:
+        qs = []                                          # a record before any zone entry
+    if v == 1 and rng.chance(1, 2):
+        qs[1] = q(name(b"other"), 2, 255)
+    for lst, sec in ((pre, 1), (upd, 2), (add, 3)):
+        for _ in range(rng.below(3)):
+            f = rng.below(4)
+            if f == 0:
+                lst.append(rec(host, 65280, zc, rng.choice([0, 300]), rng.bytes(4)))
+            elif f == 1:
+                lst.append(rec(host, 65280, 254, 0, rng.bytes(4) if rng.chance(3, 4) else b""))   # class NONE
+            elif f == 2:
+                lst.append(rec(host, rng.choice([65280, 255]), 255, 0, b"" if rng.chance(3, 4) else rng.bytes(4)))   # class ANY
+            else:
+                lst.append(rec(host, 2, zc, 60, name(b"ns") [:-1] + zone))
+    hdr = struct.pack("!HHHHHH", rng.below(65536), 0x2800 | rng.choice([0, 0x8000]), len(qs), len(pre), len(upd), len(add))
+    return hdr + b"".join(qs + pre + upd + add)
 
 
 def gen_straddle(rng, start, variant):
@@ -1619,6 +1671,14 @@ def generate(ctx: Ctx, scale: int, rng):
     for i in range(n(12)):
         wc = {"kind": "wire", "wire": rng.bytes(rng.choice([0, 5, 11, 12, 13, 20, 40])).hex(), "origin": None, "orr": False, "it": False}
         run_one(ctx, wc)
+    for i in range(n(60)):
+        w2 = gen_update_wire(rng)
+        if not model_exact_wire(w2):
+            ctx.count("gen.mutant-not-model-exact")
+            continue
+        wc = {"kind": "wire", "wire": w2.hex(), "origin": hexl([b"example", b""]) if rng.chance(1, 3) else None, "orr": rng.chance(1, 4), "it": False}
+        run_one(ctx, wc)
+        ctx.count("update-wire")
     FL = [0, 1, 0xF, 0x10, 0x7800, 0x2800, 0x8000, 0xFFFF, 0x87FF, 0x0800, 0x7FFF]
     EF = [0, 0x00800000, 0xFF000000, 0x01000000, 0xFFFFFFFF, 0x00FF0000, 0x0000FFFF, 0x10008000]
     V = [0, 1, 15, 16, 17, 255, 256, 4095, 4096, 5000, 23]
@@ -1715,11 +1775,15 @@ LEVEL = {
             "compression_sound — in every rendering, with or without truncation, every compression-table entry "
             "(every possible pointer target) lies before the end of the buffer, at most at 0x3FFF, and decodes with the library's own "
             "strictly-backward-pointer decoder to its suffix up to case, and every name written decodes from its own offset to itself; "
+            "trailing_octets — for EVERY accepted wire, appended octets give exactly TrailingJunk (ignore_trailing=False) or exactly the same message "
+            "(ignore_trailing=True), and parse_render_trailing for renderings; "
             "rcode/opcode header codecs are exact inverses (complete tables); that a rolled-back add leaves no table entry behind is C08.rollback_exact "
             "(here the direct-Renderer stream ties it to the code: octets, table and trace equal the model's, independent pointer decoder, from_wire). TIE-ONLY (differential correspondence — rendered octets, parsed "
             "messages, section counts, header codecs; model == implementation on every generated case — plus the direct oracle with an "
             "independent wire walker): byte-identical re-rendering WITHOUT the case guard; updates with EDNS padding; one_rr_per_rrset parsing; "
-            "mutated/ill-formed wires (error classification).",
+            "mutated/ill-formed wires other than appended octets (error classification); and, by direct oracle only (outside the model): "
+            "to_wire(origin=…), use_edns, Message.__eq__ saying no, from_wire(question_only / raise_on_truncation), RFC values of the flag "
+            "constants and known-answer wires of the EDNS option codecs.",
     "note": "Trusted: Lean kernel + propext/Classical.choice/Quot.sound; the statements in lean/Props/C03.lean; the correspondence "
             "harness and its generators; harness/extract_C03.py. RDATA without compressible names is opaque octets; HMAC abstract. "
             "Imports the C01 compression lemma (Proofs/NameCompress.lean: loop_sound).",
